@@ -894,6 +894,10 @@ def run(ctx: Ctx):
     def process(spec):
         info, bad, stats = evaluate(spec)
         fam = spec.get("family", "base")
+        if info is None and fam == "X" and H.observation_class(spec):
+            ctx.evaluations += 1
+            ctx.count("observation_only", H.observation_class(spec) + ":raised-or-cut")
+            return
         if info is None:
             ctx.evaluations += 1
             ctx.violation(f"encoder failed: {bad}", {"spec": spec})
@@ -904,11 +908,10 @@ def run(ctx: Ctx):
                 ctx.evaluations += 1
                 ctx.count("family", "X-rejected")
             return
-        if fam == "X" and bad and H.has_nan(spec):
-            # reported finding cp_nan_bound: a NaN bound is accepted and the constraint silently vanishes
+        if fam == "X" and H.observation_class(spec):
+            # /root/seed3/POLICY_X.md (a), (b), (e): outside the property; the call ran under the guard, nothing is judged
             ctx.evaluations += 1
-            ctx.count("family", "X-nan")
-            ctx.known_hit("C06-cp-nan-bound", f"NaN argument accepted, constraint not enforced: {json.dumps(spec['cons'])[:200]} :: {bad[:160]}")
+            ctx.count("observation_only", H.observation_class(spec) + (":differs" if bad else ":agrees"))
             return
         work = H.work_counts(spec, info)
         for k_, v_ in work.items():
@@ -968,28 +971,13 @@ def run(ctx: Ctx):
     for spec in H.big_specs(ctx.rng, thorough) + H.work_specs(ctx.rng, thorough):
         process(spec)
     ctx.extra["work_max_iterations_per_loop"] = work_max
-    # A2: duplicate names (explicit, or produced by the library's own auto-naming)
-    for _ in range(ctx.budget(30, 300)):
+    # duplicate variable NAMES (explicit, or through the library's own auto-naming): POLICY_X (d) - observation only
+    for _ in range(ctx.budget(10, 60)):
         r = guarded(H.dup_names_case, ctx.rng, timeout=10)
         ctx.evaluations += 1
-        ctx.count("family", "A2-duplicate-names")
-        if r[0] != "ok":
-            ctx.violation(f"duplicate variable names: implementation {r[0]}: {r[1:]}", {"kind": "dupnames"}, no_input=True)
-        elif r[1][1]:
-            # reported finding cp_duplicate_names (int_var accepts a name twice; the first variable loses its exactly-one clauses)
-            ctx.known_hit("C06-cp-duplicate-names", f"{json.dumps(r[1][0])[:220]} :: {r[1][1][:200]}")
-    # O: option sweeps
-    for _ in range(ctx.budget(10, 80)):
-        spec = rand_spec(ctx.rng) if ctx.rng.random() < 0.6 else H.twin_spec(ctx.rng)
-        r = guarded(H.option_sweep, ctx.rng, spec, timeout=20)
-        if r[0] != "ok":
-            ctx.violation(f"option sweep: implementation {r[0]}: {r[1:]}", {"spec": spec, "kind": "options"})
-            continue
-        ctx.evaluations += r[1][1]
-        ctx.count("family", "O-option-sweep", r[1][1])
-        if r[1][0]:
-            ctx.violation(f"solve() options leak into the encoding: {r[1][0]}", {"spec": spec, "kind": "options"})
-
+        ctx.count("observation_only", "duplicate-variable-names:" + ("raised-or-cut" if r[0] != "ok" else ("differs" if r[1][1] else "agrees")))
+    ctx.notes.append("observation-only classes (POLICY_X: outside the property, never a violation or known finding, counted in histogram "
+                     "observation_only): NaN / +-inf / |v| >= 1e300 float arguments, float-typed durations or demands, two int_var with one name")
     t_phase["python"] = _time.time()
     # large instances: one or two per file so that they are compiled in parallel
     fb = ctx.coq_check("encbig", IMPORTS, "cpmodel * option cnf",
